@@ -1,0 +1,156 @@
+//go:build verif
+
+package gobinlog
+
+// Contract of the event dispatch loop (*Streamer).parseEvents: properties C02 (transaction boundaries),
+// C03 (position labels), C04 (the position kept for the next attempt), C17 (validity gate before any access).
+//
+// Ghost state (package-level variables that exist only under the build tag; advanced by the hook functions
+// below, which the verifier runs at the named points of the real code):
+
+import (
+	"context"
+
+	"github.com/Breeze0806/gobinlog/replication"
+)
+
+var (
+	// boundary after the last transaction the handler accepted (or the initial / rotated position)
+	vcAcc Position
+	// a BEGIN has been seen and its transaction is not closed yet
+	vcOpen bool
+	// number of changes buffered since the last boundary
+	vcBuf int
+	// the handler was called during the current iteration
+	vcCalled bool
+	// every iteration so far called the handler exactly when its event was a commit point
+	vcGood bool
+)
+
+// ---- classification of an event as the statement of C02 has it ----
+
+const (
+	vcIgnore   = 0 // rotate, format description, GTID, previous-GTIDs, heartbeat, unknown type, unknown statement, table map
+	vcBegin    = 1
+	vcCommit   = 2 // XID or COMMIT statement: deliver the buffered changes
+	vcRollback = 3 // deliver an empty transaction
+	vcChange   = 4 // DDL, SET, statement-format DML, rows event: a change of its own
+)
+
+func specClass(ev replication.BinlogEvent, format replication.BinlogFormat) int {
+	switch {
+	case ev.IsXID():
+		return vcCommit
+	case ev.IsRotate():
+		return vcIgnore
+	case ev.IsQuery():
+		q, err := ev.Query(format)
+		if err != nil {
+			return vcIgnore
+		}
+		switch GetStatementCategory(q.SQL) {
+		case StatementBegin:
+			return vcBegin
+		case StatementCommit:
+			return vcCommit
+		case StatementRollback:
+			return vcRollback
+		case StatementCreate, StatementAlter, StatementDrop, StatementRename, StatementTruncate, StatementSet,
+			StatementDelete, StatementInsert, StatementUpdate:
+			return vcChange
+		}
+		return vcIgnore
+	case ev.IsTableMap():
+		return vcIgnore
+	case ev.IsWriteRows(), ev.IsUpdateRows(), ev.IsDeleteRows():
+		return vcChange
+	}
+	return vcIgnore
+}
+
+// ---- hooks ----
+
+//verif:hook loop-entry parseEvents 1
+func vc_hook_loopentry_Streamer_parseEvents_1(pos Position) {
+	vcAcc = pos
+	vcOpen = false
+	vcBuf = 0
+	vcCalled = false
+	vcGood = true
+}
+
+// the handler accepted tran: the boundary moves behind it, nothing is buffered, no transaction is open
+//
+//verif:hook callback-ok Streamer.sendTransaction
+func vc_hook_callback_ok_sendTransaction(tran *Transaction) {
+	vcAcc = tran.NextPosition
+	vcBuf = 0
+	vcOpen = false
+	vcCalled = true
+}
+
+// end of an iteration that continues the loop: advance the ghost state by the event just processed
+//
+//verif:hook loop-step parseEvents 1
+func vc_hook_loopstep_Streamer_parseEvents_1(ev replication.BinlogEvent, format replication.BinlogFormat) {
+	// iterations that end before the classification: a format description, or anything before the first one
+	stripped := !ev.IsFormatDescription() && !format.IsZero()
+	class := vcIgnore
+	if stripped {
+		class = specClass(ev, format)
+	}
+	delivered := vcCalled
+	vcCalled = false
+	switch class {
+	case vcCommit, vcRollback:
+		vcGood = vcGood && delivered
+	case vcBegin:
+		vcGood = vcGood && !delivered
+		vcOpen = true
+		vcBuf = 0
+	case vcChange:
+		if delivered {
+			// autocommitted: delivered on its own
+		} else {
+			vcGood = vcGood && vcOpen
+			vcBuf = vcBuf + 1
+		}
+	default:
+		vcGood = vcGood && !delivered
+		if stripped && ev.IsRotate() && !ev.IsXID() {
+			// a rotation moves the boundary to its target
+			fn, off, err := ev.Rotate(format)
+			if err == nil {
+				vcAcc = Position{Filename: fn, Offset: off}
+			}
+		}
+	}
+}
+
+// ---- the loop invariant ----
+
+func vc_Streamer_parseEvents_loop1_inv(pos Position, autocommit bool, tranEvents []*StreamEvent) bool {
+	return pos == vcAcc && // C04: the position to resume from is the accepted boundary
+		autocommit == !vcOpen && // C02: grouping state
+		len(tranEvents) == vcBuf && (vcOpen || vcBuf == 0) &&
+		!vcCalled && vcGood
+}
+
+// ---- what the handler is given (C02, C03), checked at the only call site ----
+
+func vc_callback_sendTransaction_requires(tran *Transaction, ev replication.BinlogEvent, tranEvents []*StreamEvent) bool {
+	return tran != nil &&
+		tran.NowPosition == vcAcc &&
+		tran.NextPosition.Filename == vcAcc.Filename &&
+		tran.NextPosition.Offset == ev.NextPosition() &&
+		tran.Timestamp == int64(ev.Timestamp()) &&
+		len(tran.Events) == len(tranEvents) &&
+		!vcCalled
+}
+
+// ---- postconditions ----
+
+// C04: whatever ends the attempt, the position handed back is the accepted boundary
+func vc_Streamer_parseEvents_ensures_resume(s *Streamer, ctx context.Context, events <-chan replication.BinlogEvent, out Position, err *Error) bool {
+	return out == vcAcc
+}
